@@ -10,7 +10,7 @@ import cbcheck as cc
 
 def setup():
     ok = True
-    for v in ["release", "checked", "wide", "eio", "eio-async", "eio-both", "eio-both-nostd", "eio-nostd", "eio-async-nostd", "nostd", "alloc", "unstable"]:
+    for v in ["release", "checked", "wide", "eio", "eio-async", "eio-both", "eio-both-nostd", "eio-nostd", "eio-async-nostd", "nostd", "alloc", "opt0", "unstable"]:
         r, info = cc.build(v, fatal=False)
         cc.log(f"build {v}: {'ok ' + info if r else 'FAILED'}")
         if not r:
@@ -135,6 +135,16 @@ def run(prop, tier, seed):
                            "non-trivial: both sides non-empty and at least one side physically wrapped; distinct by case hash",
                            "all capacity pairs <= 5 x all layouts of both sides x all contents over the alphabet")
     if prop == "C19":
+        t0 = time.time()
+        extra, viol = cc.simple_sub_run(prop, tier, seed, t0, "zfull")
+        if viol:
+            cc.write_min_evidence(prop, tier, seed, time.time() - t0, 1, viol[1])
+            cc.log(f"VIOLATION property={prop} replay={viol[0]}")
+            sys.exit(1)
+        extra["_extra_evaluations"] = sum(v for v in extra.values() if isinstance(v, int))
+        extra["full_buffer_space"] = ("buffers of a destructor-free zero-sized type built full from an array in O(1) at capacities usize::MAX, usize::MAX-1, 2^63+1, 2^63, "
+                                      "2^32+1, 2^32-1, 65537; 0..=2 elements short of full; front moved by up to 2 in either direction; every operation whose cost does "
+                                      "not grow with the length, alone and (for the two largest capacities) in all pairs")
         runs = [("checked", "checked", ["zst"]), ("release", "release", ["zst"])]
         return run_reports(prop, tier, seed, runs, "replay-zst",
                            ["counter model: for a zero-sized element type only lengths, Some/None/Err shapes and the number of constructor/destructor runs are observable",
@@ -144,7 +154,7 @@ def run(prop, tier, seed):
                            "front position near N (push_front from empty) and near 0, moved across the wrap by pops; every operation whose cost does not grow with N "
                            "with boundary arguments (0, 1, len-1, len, len+1, N-1, N, usize::MAX) and every bound pair; proptest histories. "
                            "non-trivial: N >= 2^32 (front position within 12 of 0 or of N by construction); distinct by case hash",
-                           "13 capacities x 66 constructed layouts x every listed operation/argument class, each followed by a fixed 4-step tail")
+                           "13 capacities x 66 constructed layouts x every listed operation/argument class, each followed by a fixed 4-step tail", extra_cov=extra)
     if prop == "C17":
         extra = core_only_builds(prop, tier, seed)
         runs = [("crate-features-std", "release", ["alloc"]), ("crate-features-none", "nostd", ["alloc"]), ("crate-features-alloc", "alloc", ["alloc"])]
@@ -461,7 +471,8 @@ def replay(prop, path):
         bad = False
         for v in ["checked", "release"]:
             cc.build(v)
-            p = subprocess.run([cc.binary(v), "replay-cmp" if prop == "C13" else "replay-zst", path], stdout=subprocess.PIPE, stderr=subprocess.STDOUT, text=True, timeout=120)
+            sub = "replay-cmp" if prop == "C13" else ("replay-zfull" if meta.get("engine") == "zfull" else "replay-zst")
+            p = subprocess.run([cc.binary(v), sub, path], stdout=subprocess.PIPE, stderr=subprocess.STDOUT, text=True, timeout=120)
             cc.log(f"--- build {v}")
             cc.log(p.stdout.strip())
             bad |= p.returncode != 0
